@@ -38,7 +38,7 @@ var AttackOps = []string{
 	"shadow_attribute", "comment_inject", "ns_rebind", "relocate_signature", "evil_sibling", "nest_in_response",
 	"attacker_encrypt", "cdata_inject", "swap_signature_values",
 	"root_id_collision", "keyinfo_swap", "duplicate_signature", "doctype_entity", "attacker_signed_sibling", "whitespace_in_signed",
-	"result_field_injection", "nsdecl_named_like_attribute",
+	"result_field_injection", "nsdecl_named_like_attribute", "resign_lookalike_cert",
 }
 
 func el(doc *etree.Document) *etree.Element { return doc.Root() }
@@ -266,7 +266,7 @@ func (ad *Adversary) Build(t *core.Tape, op string, hist []IssuedMsg) (*Attack, 
 		atk.XML = docString(d)
 		return atk, true
 
-	case "resign_attacker_key", "trusted_cert_foreign_key":
+	case "resign_attacker_key", "trusted_cert_foreign_key", "resign_lookalike_cert":
 		m := pick("adv.msg", plainAssertions)
 		if m == nil {
 			return nil, false
@@ -274,12 +274,17 @@ func (ad *Adversary) Build(t *core.Tape, op string, hist []IssuedMsg) (*Attack, 
 		lm := *m.Logical
 		var as []*LAssertion
 		cert := ad.Cert
-		if op == "trusted_cert_foreign_key" {
+		if op == "trusted_cert_foreign_key" || op == "resign_lookalike_cert" {
 			// embed the genuine certificate, sign with the attacker's key
 			for _, o := range []*SigOpts{m.Logical.Sign, m.Logical.Assertions[0].Sign} {
 				if o != nil {
 					cert = o.Cert
 				}
+			}
+			if op == "resign_lookalike_cert" {
+				// ... or rather a certificate of the attacker's key that copies every name, number and
+				// identifier of the genuine one
+				cert = MintLookalike(cert, ad.KeyIdx)
 			}
 		}
 		place := t.Int(3, "adv.place")
@@ -488,11 +493,34 @@ func (ad *Adversary) Build(t *core.Tape, op string, hist []IssuedMsg) (*Attack, 
 		d := parse(m)
 		a := firstByTag(el(d), "Assertion")
 		ev, desc := evilCopy(a, 1+t.Int(2, "adv.id"), t)
+		// the forged assertion sits directly under the Response, or inside a wrapper next to the genuine one
+		// (an unsigned Response must not be accepted while it carries an unsigned assertion anywhere)
+		var holder *etree.Element = ev
+		pp, _ := prefixFor(el(d), NSProtocol)
+		pa, _ := prefixFor(a, NSAssertion)
+		switch t.Int(4, "adv.sibling.wrap") {
+		case 1:
+			holder = etree.NewElement(pp + "Extensions")
+			holder.AddChild(ev)
+			desc += ",inside-extensions"
+		case 2:
+			holder = etree.NewElement("w:Wrapper")
+			holder.CreateAttr("xmlns:w", "urn:wrapper")
+			holder.AddChild(ev)
+			desc += ",inside-foreign-wrapper"
+		case 3:
+			holder = etree.NewElement(pa + "Advice")
+			if pa == "" {
+				holder.CreateAttr("xmlns", NSAssertion)
+			}
+			holder.AddChild(ev)
+			desc += ",inside-bare-advice"
+		}
 		if t.Bool("adv.first") {
-			el(d).InsertChildAt(a.Index(), ev)
+			el(d).InsertChildAt(a.Index(), holder)
 			desc += ",evil-first"
 		} else {
-			el(d).AddChild(ev)
+			el(d).AddChild(holder)
 		}
 		atk.XML, atk.Detail = docString(d), desc
 		return atk, true
@@ -1093,6 +1121,26 @@ func DirectAssertionIDs(xml string) (map[string]bool, bool) {
 		}
 	}
 	return ids, enc
+}
+
+// AllAssertionElements counts the SAML Assertion elements anywhere in the document.
+func AllAssertionElements(xml string) int {
+	d, err := parseDoc(xml)
+	if err != nil || d.Root() == nil {
+		return 0
+	}
+	n := 0
+	var walk func(e *etree.Element)
+	walk = func(e *etree.Element) {
+		if e.Tag == "Assertion" && e.NamespaceURI() == NSAssertion {
+			n++
+		}
+		for _, c := range e.ChildElements() {
+			walk(c)
+		}
+	}
+	walk(d.Root())
+	return n
 }
 
 // CarriedAssertions counts the direct children of the document root that are SAML
